@@ -46,7 +46,7 @@ inductive DecRes (α : Type)
   | ok (v : α) (w : Nat)    -- value and the width Go recomputes from the value
   | err (e : Err)
   | panic
-deriving Repr
+deriving Repr, DecidableEq
 
 abbrev Dec (α : Type) := Bytes → DecRes α
 
@@ -82,5 +82,22 @@ def bytesOfHex (s : String) : Option Bytes :=
   if s = "-" then some [] else bytesOfHexAux s.toList []
 
 def strBytes (s : String) : Bytes := s.toUTF8.toList
+
+open Lean in
+/-- `b!"text"`: the UTF-8 bytes of a string literal as an explicit list literal (so that the
+kernel can compute with renderings; `strBytes` goes through `String`'s byte array) -/
+macro:max "b!" s:str : term => do
+  let bytes := s.getString.toUTF8.toList
+  let elems ← bytes.mapM fun b => `(($(quote b.toNat) : UInt8))
+  `(([$(elems.toArray),*] : List UInt8))
+
+/-- decimal digits of a natural number (`strconv.Itoa`), by structural recursion on fuel -/
+def decDigitsAux : Nat → Nat → Bytes → Bytes
+  | 0, _, acc => acc
+  | fuel + 1, n, acc =>
+    let acc' := (48 + n % 10).toUInt8 :: acc
+    if n < 10 then acc' else decDigitsAux fuel (n / 10) acc'
+
+def decStr (n : Nat) : Bytes := decDigitsAux (n + 1) n []
 
 end Mq
